@@ -9,10 +9,12 @@ import (
 	"fmt"
 	"os"
 	"path/filepath"
+	"strings"
 
 	_ "github.com/cosmos/cosmos-proto"
 	_ "github.com/cosmos/cosmos-proto/internal/testprotos/test3"
 	"github.com/cosmos/cosmos-proto/internal/verifsim/shapesdesc"
+	"github.com/cosmos/cosmos-proto/internal/verifsim/simhook"
 	_ "github.com/cosmos/cosmos-proto/testpb"
 	"google.golang.org/protobuf/proto"
 	"google.golang.org/protobuf/reflect/protodesc"
@@ -31,6 +33,24 @@ type entry struct {
 	Generate  []string `json:"files_to_generate"`
 	Parameter string   `json:"parameter"`
 	GoPkgDir  string   `json:"go_pkg_dir"` // directory (relative to module root) receiving the output
+	Packages  []pkgInfo `json:"packages,omitempty"`
+}
+
+// pkgInfo describes one Go package of a random corpus set.
+type pkgInfo struct {
+	ImportPath string   `json:"import_path"`
+	Messages   []string `json:"messages"` // Go type names
+}
+
+func goMessages(prefix string, msgs []*descriptorpb.DescriptorProto, out *[]string) {
+	for _, m := range msgs {
+		if m.GetOptions().GetMapEntry() {
+			continue
+		}
+		name := prefix + m.GetName()
+		*out = append(*out, name)
+		goMessages(name+"_", m.NestedType, out)
+	}
 }
 
 func closure(fd protoreflect.FileDescriptor, seen map[string]bool, out *[]*descriptorpb.FileDescriptorProto) {
@@ -61,6 +81,8 @@ func registered(paths ...string) []*descriptorpb.FileDescriptorProto {
 
 func main() {
 	outDir := flag.String("out", "", "output directory")
+	nRandom := flag.Int("random", 0, "number of random corpus schema sets")
+	seed := flag.Uint64("seed", 1, "VERIF_SEED (random corpus sets)")
 	flag.Parse()
 	if err := os.MkdirAll(*outDir, 0o755); err != nil {
 		panic(err)
@@ -100,6 +122,33 @@ func main() {
 		"features=protoc+fast,paths=source_relative,"+mCosmos, "testpb")
 	t3 := []string{"internal/testprotos/test3/test.proto", "internal/testprotos/test3/test_import.proto", "internal/testprotos/test3/test_nesting.proto"}
 	write("test3", registered(t3...), t3, "features=protoc+fast,paths=source_relative", "")
+
+	// random corpus schema sets for the codec engines (compilable flavour)
+	for k := 0; k < *nRandom; k++ {
+		tape := simhook.NewSearchTape(simhook.Mix(*seed, uint64(k), simhook.HashString("rndcorpus")))
+		set := shapesdesc.RandomSet(tape, shapesdesc.RandomOpts{Tag: fmt.Sprintf("s%d", k)})
+		all := append(append([]*descriptorpb.FileDescriptorProto{}, deps...), set...)
+		if _, err := protodesc.NewFiles(&descriptorpb.FileDescriptorSet{File: all}); err != nil {
+			fmt.Fprintln(os.Stderr, "reqgen: random corpus set invalid (harness bug):", err)
+			os.Exit(2)
+		}
+		var gen []string
+		byPkg := map[string]*pkgInfo{}
+		var order []string
+		for _, f := range set {
+			gen = append(gen, f.GetName())
+			ip := strings.SplitN(f.GetOptions().GetGoPackage(), ";", 2)[0]
+			if byPkg[ip] == nil {
+				byPkg[ip] = &pkgInfo{ImportPath: ip}
+				order = append(order, ip)
+			}
+			goMessages("", f.MessageType, &byPkg[ip].Messages)
+		}
+		write(fmt.Sprintf("rnd%d", k), set, gen, "features=protoc+fast", "")
+		for _, ip := range order {
+			index[len(index)-1].Packages = append(index[len(index)-1].Packages, *byPkg[ip])
+		}
+	}
 
 	// the repository's own option declarations (extensions of descriptor.proto options)
 	write("cosmos", registered("cosmos_proto/cosmos.proto"), []string{"cosmos_proto/cosmos.proto"}, "features=protoc+fast", "")
